@@ -5,6 +5,7 @@ package main
 import (
 	"crypto/sha256"
 	"encoding/binary"
+	"encoding/json"
 	"encoding/hex"
 	"flag"
 	"fmt"
@@ -523,6 +524,99 @@ func rebuild(h int, hf xmss.HashFunction, seed [48]uint8, window int, crashEvery
 	return sigs
 }
 
+type planOp struct {
+	Op  string `json:"op"`
+	O   string `json:"o"`
+	Arg int    `json:"arg"`
+}
+
+// plan (spec -> code): behaviours generated by TLC from spec/SimWallet.tla are
+// executed operation by operation on real objects of one seed.
+func plan(h int, hf xmss.HashFunction, path string, r *rand.Rand, tr *trace.Buf) int {
+	raw, err := os.ReadFile(path)
+	if err != nil {
+		fmt.Fprintln(os.Stderr, err)
+		os.Exit(2)
+	}
+	var behaviours [][]planOp
+	if err := json.Unmarshal(raw, &behaviours); err != nil {
+		fmt.Fprintln(os.Stderr, err)
+		os.Exit(2)
+	}
+	n := 1 << uint(h)
+	bufs := make([]*trace.Buf, len(behaviours))
+	cnt := make([]int, len(behaviours))
+	var wg sync.WaitGroup
+	sem := make(chan struct{}, runtime.NumCPU())
+	for bi, beh := range behaviours {
+		bi, beh := bi, beh
+		seed := seedFrom(r)
+		wg.Add(1)
+		sem <- struct{}{}
+		go func() {
+			defer wg.Done()
+			defer func() { <-sem }()
+			b := &trace.Buf{}
+			bufs[bi] = b
+			fam := nextFam()
+			objs := map[string]*keyObj{}
+			var tree *xproj.Tree
+			desc := xmss.NewQRLDescriptor(uint8(h), hf, common.XMSSSig, common.SHA256_2X).GetBytes()
+			var ext [common.ExtendedSeedSize]uint8
+			copy(ext[:3], desc[:])
+			copy(ext[3:], seed[:])
+			for _, op := range beh {
+				o := objs[op.O]
+				switch {
+				case strings.HasPrefix(op.Op, "Rebuild:"):
+					var x *xmss.XMSS
+					switch op.Op[8:] {
+					case "seed+params":
+						x = xmss.NewXMSSFromSeed(seed, uint8(h), hf, common.SHA256_2X)
+					case "extendedSeed":
+						x = xmss.NewXMSSFromExtendedSeed(ext)
+					default:
+						x = xmss.NewXMSSFromExtendedSeed(misc.MnemonicToExtendedSeedBin(misc.ExtendedSeedBinToMnemonic(ext)))
+					}
+					k := newKey(x, fam, tree, op.Op[8:], b)
+					tree = k.tree
+					objs[op.O] = k
+				case op.Op == "Crash":
+					if o != nil {
+						o.drop(false)
+						delete(objs, op.O)
+					}
+				case op.Op == "Sign":
+					if o != nil {
+						m := int(o.x.GetIndex())
+						if m > n {
+							m = n
+						}
+						if _, q := o.sign(m); q == "ok" {
+							cnt[bi]++
+						}
+					}
+				case op.Op == "SetIndex":
+					if o != nil {
+						o.setIndex(uint32(op.Arg))
+					}
+				}
+			}
+			for _, o := range objs {
+				o.drop(false)
+			}
+			b.Emit(event{Ev: "Drop", K: -1, Fam: fam})
+		}()
+	}
+	wg.Wait()
+	sigs := 0
+	for bi := range behaviours {
+		tr.Append(bufs[bi])
+		sigs += cnt[bi]
+	}
+	return sigs
+}
+
 func min(a, b int) int {
 	if a < b {
 		return a
@@ -539,6 +633,7 @@ func main() {
 	window := flag.Int("window", 8, "rebuild: signatures compared after each crash index")
 	crashEvery := flag.Int("crashevery", 1, "rebuild: crash at every n-th index")
 	reps := flag.Int("reps", 1, "random: sequences per hash function")
+	planFile := flag.String("plan", "", "plan: JSON list of behaviours (lists of {op,o,arg}) generated by TLC")
 	seam := flag.Bool("seam", false, "install the leaf seam (synthetic leaves)")
 	seed := flag.Int64("seed", 1, "VERIF_SEED")
 	out := flag.String("out", "", "trace file")
@@ -577,6 +672,8 @@ func main() {
 				}
 			case "rebuild":
 				st.Signatures += rebuild(*h, hf, seedFrom(r), *window, *crashEvery, r, tr)
+			case "plan":
+				st.Signatures += plan(*h, hf, *planFile, r, tr)
 			default:
 				fmt.Fprintln(os.Stderr, "unknown mode", m)
 				os.Exit(2)
